@@ -644,4 +644,14 @@ b("fx-f36", "C08", "pyformlang/cfg/variable.py",
 p("c08-p-eq-both-own-class", "C08", "pyformlang/cfg/variable.py",
   "        if isinstance(other, CFGObject):\n            return isinstance(other, Variable) and \\\n                self._value == other.value\n",
   "        if isinstance(other, Variable):\n            return self._value == other.value\n        if isinstance(other, CFGObject):\n            return False\n")
+b("c18-copy-memo-not-filled", "C18", "pyformlang/fcfg/feature_structure.py",
+  "        already_copied[self] = new_fs\n        return new_fs\n", "        return new_fs\n", "copy-preserves-sharing")
+b("c18-copy-memo-not-passed", "C18", "pyformlang/fcfg/feature_structure.py",
+  "            new_fs.content[feature] = content.copy(already_copied)\n", "            new_fs.content[feature] = content.copy()\n",
+  "copy-preserves-sharing")
+b("c18-copy-memo-not-consulted", "C18", "pyformlang/fcfg/feature_structure.py",
+  "        if self in already_copied:\n            return already_copied[self]\n", "", "copy-preserves-sharing")
+p("c18-p-copy-memo-get", "C18", "pyformlang/fcfg/feature_structure.py",
+  "        if self in already_copied:\n            return already_copied[self]\n",
+  "        known = already_copied.get(self)\n        if known is not None:\n            return known\n")
 VARIANTS = V
